@@ -18,7 +18,7 @@ RULE = ("(v3: genomes with ignored '_' contigs of non-zero size; v2: pileup leav
         "flags are not all default, or >= 2 chromosomes, or expression depth >= 2")
 EXHAUSTIVE = {"quick": True, "thorough": True}
 PARALLEL = 16
-MODEL_OPS = {"rle_bedgraph", "from_intervals_arr", "track", "geo_track", "expr", "expr_f"}
+MODEL_OPS = {"rle_to_array", "extract", "track_from_dict", "rle_bedgraph", "from_intervals_arr", "track", "geo_track", "expr", "expr_f"}
 ASSUMPTIONS = [
     "bedGraph records are start < stop, sorted, non-overlapping (stop[i] <= start[i+1]) in genome order, last stop <= size; "
     "from_intervals(values=array) additionally needs stop[i] < start[i+1] (the RunLengthArray constructor rejects empty runs)",
@@ -95,6 +95,10 @@ def _out(kind, arr):
     a = np.asarray(arr)
     if a.dtype == np.float64:
         return [_norm_bits(int(x)) for x in a.view(np.uint64).tolist()]
+    if a.dtype == np.float32:
+        return [0 if x == 0x80000000 else int(x) for x in a.view(np.uint32).tolist()]
+    if a.dtype == np.float16:
+        return [0 if x == 0x8000 else int(x) for x in a.view(np.uint16).tolist()]
     if a.dtype == bool:
         return [int(x) for x in a.tolist()]
     return [int(x) for x in a.tolist()]
@@ -205,6 +209,22 @@ def cases(tier, rng):
                 fv = _values(rng, "float", len(iv))
                 yield {"op": "from_intervals_arr", "recs": [[a, b, v] for (a, b), v in zip(iv, fv)], "size": size,
                        "kind": "float", "dflt": _f2b(3.0), "idflt": 3}
+    # 1b. to_array / to_bedgraph straight from the constructor, every value dtype the code special-cases
+    for dt in ("float64", "float32", "float16", "int64", "bool"):
+        yield {"op": "rle_to_array", "events": [0], "values": [], "dtype": dt, "kind": "float" if dt.startswith("f") else dt[:3].replace("boo", "bool")}
+        for _ in range(60 if big else 12):
+            n = rng.choice([1, 2, 3, 5])
+            ev = [0] + sorted(rng.sample(range(1, 12), n))
+            if dt == "bool":
+                vals = [rng.randrange(2) for _ in range(n)]
+            elif dt == "int64":
+                vals = [rng.choice([0, 1, -1, 5, -7, 2 ** 40]) for _ in range(n)]
+            else:
+                fl = np.array([rng.choice([0.0, -0.0, 1.5, -2.25, 3.0, 0.1]) for _ in range(n)], dtype=dt)
+                vals = [int(x) for x in fl.view({"float64": np.uint64, "float32": np.uint32, "float16": np.uint16}[dt]).tolist()]
+            yield {"op": "rle_to_array", "events": ev, "values": vals, "dtype": dt,
+                   "kind": "float" if dt.startswith("f") else ("bool" if dt == "bool" else "int"),
+                   "negzero": {"float64": 2 ** 63, "float32": 2 ** 31, "float16": 2 ** 15}.get(dt, 2 ** 70)}
     # 2. genomes of 1..4 chromosomes: every distribution of <= 3 records
     for nch in (1, 2, 3, 4):
         for sizes in itertools.product((1, 2, 4) if big else (1, 3), repeat=nch):
@@ -219,6 +239,9 @@ def cases(tier, rng):
                 recs = [[c, a, b, v] for c, iv in enumerate(combo) for (a, b), v in zip(iv, _values(rng, kind, len(iv)))]
                 yield {"op": "track", "sizes": list(sizes), "recs": recs, "kind": kind}
                 yield {"op": "geo_track", "sizes": list(sizes), "recs": recs, "kind": kind}
+    for _ in range(40 if big else 8):      # more than ten chromosomes: str() shows the first ten
+        sizes = [rng.choice([1, 2, 3]) for _ in range(rng.choice([11, 12, 14]))]
+        yield {"op": "track_str", "sizes": sizes, "recs": _rand_track(rng, sizes, "int", maxn=1)}
     # 3. random larger tracks and expression trees
     N = 3000 if big else 500
     D = 4 if big else 3
@@ -229,6 +252,13 @@ def cases(tier, rng):
         yield {"op": rng.choice(["track", "geo_track"]), "sizes": sizes, "recs": recs, "kind": kind}
         if kind == "int":
             yield {"op": "track_str", "sizes": sizes, "recs": recs}
+            yield {"op": "track_from_dict", "sizes": sizes, "recs": recs, "kind": kind, "via": rng.choice(["dict", "stream"])}
+            # t[intervals] (stranded or not) and t[locations]
+            ivs = [[c, a, b, rng.randrange(2)] for c, a, b, _ in _rand_ivs(rng, sizes)]
+            locs = [[c, rng.randrange(sz)] for c, sz in enumerate(sizes) for _ in range(rng.randrange(3))]
+            yield {"op": "extract", "sizes": sizes, "recs": recs, "ivs": ivs, "locs": locs, "stranded": rng.random() < 0.5}
+            if rng.random() < (0.5 if big else 0.25):
+                yield {"op": "track_file", "sizes": sizes, "recs": recs, "k": rng.choice([1, 2, 3])}
         nI, nB = rng.choice([1, 2, 3]), rng.choice([0, 1, 2])
         leaves = [({"kind": "pileup", "recs": _rand_ivs(rng, sizes)} if rng.random() < 0.25 else
                    {"kind": "int", "recs": _rand_track(rng, sizes, "int")}) for _ in range(nI)] + \
@@ -238,7 +268,9 @@ def cases(tier, rng):
         red = rng.choice([None, None, "sum", [-3, 0, 1, 2, 5]]) if want == "int" else rng.choice([None, None, "sum"])
         idx = _tree(rng, rng.randrange(0, 3), "bool", nI, nB) if rng.random() < 0.3 else None   # t[mask]
         case = {"op": "expr", "sizes": sizes, "leaves": leaves, "tree": tree, "red": red, "idx": idx}
-        if rng.random() < 0.4:    # ignored ('_') contigs of non-zero size anywhere in the chrom.sizes listing
+        if rng.random() < 0.15:
+            case["via_file"] = rng.choice(["sorted", "context"])
+        elif rng.random() < 0.4:    # ignored ('_') contigs of non-zero size anywhere in the chrom.sizes listing
             case["ignored"] = [[rng.randrange(len(sizes) + 1), rng.choice([1, 3, 7])] for _ in range(rng.choice([1, 1, 2]))]
             case["via_file"] = rng.random() < 0.3
         yield case
@@ -287,7 +319,11 @@ def nontrivial(c):
         r = c["recs"]
         return bool(r) and (r[0][0] > 0 or (c["size"] is not None and r[-1][1] < c["size"])
                             or any(r[i][1] != r[i + 1][0] for i in range(len(r) - 1)))
-    if op in ("track", "geo_track", "track_str"):
+    if op == "rle_to_array":
+        return len(c["values"]) >= 1
+    if op == "extract":
+        return bool(c["ivs"]) or bool(c["locs"])
+    if op in ("track", "geo_track", "track_str", "track_from_dict", "track_file"):
         return len(c["sizes"]) >= 2 or len(c["recs"]) >= 2
     return _depth(c["tree"]) >= 2 or bool(c.get("ignored"))
 
@@ -352,6 +388,12 @@ def _genome(sizes, ignored=None, via_file=False):
     """genome with the given included chromosomes and, optionally, ignored contigs ('_' in the name, non-zero size)
     placed at the given positions of the chrom.sizes listing"""
     m = _mods()
+    if via_file == "sorted":      # names handed over in reverse order, sort_names=True restores chr1..chrN (N <= 9)
+        d = _sizes_dict(sizes)
+        return m["bnp"].Genome({k: d[k] for k in reversed(list(d))}, sort_names=True)
+    if via_file == "context":     # a Genome built from another Genome's context, plus an extra ignored name
+        g0 = m["bnp"].Genome.from_dict(_sizes_dict(sizes))
+        return m["bnp"].Genome(g0.get_genome_context()).with_ignored_added(["chrM_extra"])
     if not ignored:
         return m["bnp"].Genome.from_dict(_sizes_dict(sizes))
     from bionumpy.genomic_data.genome_context import ignore_underscores
@@ -402,6 +444,67 @@ def impl(c):
         if op == "track_str":
             t = m["bnp"].Genome.from_dict(_sizes_dict(c["sizes"])).get_track(_bg(c["recs"], "int"))
             return {"str": str(t), "repr": repr(t)}
+        if op == "rle_to_array":
+            dt = np.dtype(c["dtype"])
+            if dt.kind == "f":
+                v = np.array(c["values"], dtype={8: np.uint64, 4: np.uint32, 2: np.uint16}[dt.itemsize]).view(dt)
+            else:
+                v = np.array(c["values"], dtype=dt)
+            r = m["G"](np.array(c["events"], dtype=int), v)
+            arr = r.to_array()
+            if arr.dtype != dt:
+                return {"err": "other:dtype-" + str(arr.dtype)}
+            b = r.to_bedgraph("chrX")
+            return {"dense": _out(None, arr), "bedgraph": [[int(x), int(y), z] for x, y, z in
+                                                            zip(b.start.tolist(), b.stop.tolist(), _out(None, np.asarray(b.value).astype(dt) if dt.kind == "f" else b.value))]}
+        if op == "track_from_dict":
+            genome = m["bnp"].Genome.from_dict(_sizes_dict(c["sizes"]))
+            t = genome.get_track(_bg(c["recs"], c["kind"]))
+            from bionumpy.genomic_data.genomic_track import GenomicArrayGlobal
+            names = list(_sizes_dict(c["sizes"]))
+            ctx = genome.get_genome_context()
+            if c["via"] == "dict":
+                t2 = GenomicArrayGlobal.from_dict({n: t[n] for n in names}, ctx)
+            else:
+                t2 = GenomicArrayGlobal.from_stream(iter([(n, t[n]) for n in names]), ctx)
+            return _observe(t2, c["sizes"])
+        if op == "extract":
+            genome = m["bnp"].Genome.from_dict(_sizes_dict(c["sizes"]))
+            t = genome.get_track(_bg(c["recs"], "int"))
+            from bionumpy.datatypes import StrandedInterval
+            from bionumpy.genomic_data.genomic_intervals import LocationEntry
+            ivs, locs = c["ivs"], c["locs"]
+            rows = []
+            if ivs:
+                x = StrandedInterval(["chr%d" % (r[0] + 1) for r in ivs], np.array([r[1] for r in ivs], dtype=int),
+                                     np.array([r[2] for r in ivs], dtype=int), ["+" if r[3] else "-" for r in ivs])
+                got = t[genome.get_intervals(x, stranded=c["stranded"])]
+                rows = [[int(v) for v in (row.to_array() if hasattr(row, "to_array") else np.asarray(row)).tolist()] for row in got]
+            at = []
+            if locs:
+                le = LocationEntry(["chr%d" % (r[0] + 1) for r in locs], np.array([r[1] for r in locs], dtype=int))
+                at = [int(v) for v in np.asarray(t[genome.get_locations(le)]).tolist()]
+            return {"rows": rows, "at": at}
+        if op == "track_file":
+            import os, tempfile, atexit, shutil
+            if not _TMP:
+                _TMP.append(tempfile.mkdtemp(prefix="c09-"))
+                atexit.register(shutil.rmtree, _TMP[0], True)
+            fn = os.path.join(_TMP[0], "t%d.bdg" % os.getpid())
+            with open(fn, "w") as fh:
+                fh.write("".join("chr%d\t%d\t%d\t%d\n" % (r[0] + 1, r[1], r[2], r[3]) for r in c["recs"]))
+            genome = m["bnp"].Genome.from_dict(_sizes_dict(c["sizes"]))
+            names = list(_sizes_dict(c["sizes"]))
+            k = c["k"]
+            out = {"mem": [[int(v) for v in genome.read_track(fn).to_dict()[n].tolist()] for n in names]}
+            out["sum"] = int(np.sum(genome.read_track(fn, stream=True)).compute())
+            out["hist"] = [int(v) for v in np.histogram(genome.read_track(fn, stream=True), bins=[-10, 0, 1, 3, 10]).compute()[0].tolist()]
+            d = m["bnp"].compute((genome.read_track(fn, stream=True) * k).get_data())
+            out["data"] = [[names.index(n), int(a), int(b), int(v)] for n, a, b, v in
+                           zip(d.chromosome.tolist(), d.start.tolist(), d.stop.tolist(), d.value.tolist())]
+            d = m["bnp"].compute((genome.read_track(fn, stream=True) > k).get_data())
+            out["where"] = [[names.index(n), int(a), int(b)] for n, a, b in zip(d.chromosome.tolist(), d.start.tolist(), d.stop.tolist())]
+            return out
         if op in ("expr", "expr_f"):
             sizes = c["sizes"]
             genome = _genome(sizes, c.get("ignored"), c.get("via_file", False))
@@ -412,6 +515,9 @@ def impl(c):
                 out["bool"] = bool(g.dtype == bool)
                 if op == "expr":
                     out["gsize"] = int(genome.size)
+                    if not (repr(genome).startswith("Genome(") and all(n in str(genome) for n in _sizes_dict(sizes))
+                            and list(genome.get_genome_context().chrom_sizes.items()) == list(_sizes_dict(sizes).items())):
+                        out["gsize"] = -1     # repr / str / chrom_sizes of the genome do not list the included chromosomes
                 if c.get("idx") is not None:
                     sel = g[_ev(c["idx"], leaves)]
                     out["idx"] = _out(None, sel.to_array() if hasattr(sel, "to_array") else np.asarray(sel))
@@ -483,13 +589,42 @@ def oracle(c):
         if any(not _ok_bedgraph(rs, sz) for rs, sz in zip(per, sizes)) or [r[0] for r in c["recs"]] != sorted(r[0] for r in c["recs"]):
             return SKIP
         return {"dict": [_out(c["kind"], _dense(rs, c["kind"], sz)) for rs, sz in zip(per, sizes)]}
+    if op == "rle_to_array":
+        ev, vals = c["events"], c["values"]
+        if len(ev) != len(vals) + 1 or ev[0] != 0 or any(a >= b for a, b in zip(ev, ev[1:])):
+            return SKIP
+        nzv = {"float64": 0x8000000000000000, "float32": 0x80000000, "float16": 0x8000}.get(c["dtype"])
+        vs = [0 if v == nzv else v for v in vals]
+        return {"dense": [v for a, b, v in zip(ev, ev[1:], vs) for _ in range(b - a)], "bedgraph": [[a, b, v] for a, b, v in zip(ev, ev[1:], vs)]}
+    if op == "track_from_dict":
+        return oracle(dict(c, op="track"))
+    if op in ("extract", "track_file"):
+        sizes = c["sizes"]
+        per = _split(sizes, c["recs"])
+        if any(not _ok_bedgraph(rs, sz) for rs, sz in zip(per, sizes)) or [r[0] for r in c["recs"]] != sorted(r[0] for r in c["recs"]):
+            return SKIP
+        dense = [_dense(rs, "int", sz) for rs, sz in zip(per, sizes)]
+        if op == "extract":
+            rows = []
+            for ch, a, b, f in c["ivs"]:
+                row = dense[ch][a:b].tolist()
+                rows.append(row[::-1] if (c["stranded"] and not f) else row)
+            return {"rows": rows, "at": [int(dense[ch][p]) for ch, p in c["locs"]]}
+        if not c["recs"]:
+            return SKIP        # an empty file has no records to infer the format from
+        k = c["k"]
+        g = np.concatenate(dense)
+        out = {"mem": [d.tolist() for d in dense], "sum": int(g.sum()),
+               "hist": [int(v) for v in np.histogram(g, bins=[-10, 0, 1, 3, 10])[0].tolist()], "dense_k": [(d * k).tolist() for d in dense],
+               "gt_k": [(d > k).astype(int).tolist() for d in dense]}
+        return out
     if op == "track_str":   # str(): one line per chromosome, the dense array as NumPy prints it
         sizes = c["sizes"]
         per = _split(sizes, c["recs"])
         if any(not _ok_bedgraph(rs, sz) for rs, sz in zip(per, sizes)) or [r[0] for r in c["recs"]] != sorted(r[0] for r in c["recs"]):
             return SKIP
-        txt = "\n".join("chr%d: %s" % (i + 1, _dense(rs, "int", sz)) for i, (rs, sz) in enumerate(zip(per, sizes)))
-        return {"str": txt, "repr": txt}
+        txt = "\n".join("chr%d: %s" % (i + 1, _dense(rs, "int", sz)) for i, (rs, sz) in list(enumerate(zip(per, sizes)))[:10])
+        return {"str": txt, "repr": txt, "more": len(sizes) > 10}
     if op in ("expr", "expr_f"):
         sizes = c["sizes"]
         for l in c["leaves"]:
@@ -534,7 +669,17 @@ def agree(c, got, exp):
     if op in ("rle_bedgraph", "from_intervals_arr"):
         return got["dense"] == exp["dense"]
     if op == "track_str":
+        if exp["more"]:     # more than ten chromosomes: the first ten lines are the arrays, the rest is an ellipsis
+            return all(got[k].split("\n")[:10] == exp[k].split("\n") for k in ("str", "repr"))
+        return got["str"] == exp["str"] and got["repr"] == exp["repr"]
+    if op == "rle_to_array":
+        return got["dense"] == exp["dense"] and got["bedgraph"] == exp["bedgraph"]
+    if op == "extract":
         return core.canon(got) == core.canon(exp)
+    if op == "track_file":
+        if got["mem"] != exp["mem"] or got["sum"] != exp["sum"] or got["hist"] != exp["hist"]:
+            return False
+        return _records_ok(got["data"], exp["dense_k"], False) and _records_ok(got["where"], exp["gt_k"], True)
     if got["dict"] != exp["dict"]:
         return False
     for k in ("bool", "sum", "hist", "str", "idx", "gsize"):
@@ -546,6 +691,13 @@ def agree(c, got, exp):
                     continue
             return False
     return _records_ok(got["data"], got["dict"], exp.get("bool", False))
+
+
+def agree_spec(c, s, exp):
+    """the Lean spec value covers the dense part of the expectation"""
+    if c["op"] == "rle_to_array":
+        return s.get("dense") == exp["dense"]
+    return core.canon(s) == core.canon(exp)
 
 
 def agree_model(c, got, m):
